@@ -554,6 +554,11 @@ impl Prop for C14Structured {
                 if !audit.pointers.is_empty() {
                     out.class("compressed");
                 }
+                if audit.max_hops > 10 {
+                    out.class("pointer-chain-over-10-hops");
+                } else if audit.max_hops > 2 {
+                    out.class("pointer-chain-3-to-10-hops");
+                }
                 let has_opts = m
                     .edns()
                     .map(|e| !e.unwrap().options.is_empty())
